@@ -111,6 +111,19 @@ class Shadow:
                 del par.kids[i]
                 return
 
+    def rm_path(self, p, path):
+        par = self.get(p)
+        if par is None or par.ty != T_GROUP:
+            return
+        comps = doc_parse_path(path)
+        if comps is None or isinstance(comps[-1], int):
+            return
+        ch = doc_resolve(par, comps, lambda n: n.kids, lambda n: n.name, lambda n: n.ty)
+        if not ch:
+            return
+        holder = ch[-2] if len(ch) > 1 else par
+        holder.kids.remove(ch[-1])
+
     def rm_idx(self, p, idx):
         par = self.get(p)
         if par is None or par.ty not in AGGS:
@@ -154,7 +167,133 @@ def float_castable(bits, lo, hi):
     return lo <= int(d) <= hi
 
 
-def random_history(rng, nops, opts=None, dump_every=1, hooks=False, crossing=False):
+SEPS = [b".", b":", b"/"]
+
+
+def doc_parse_path(path):
+    """The documented path syntax, strictly: [sep] comp (sep comp)* with comp = name | '[' digits ']'.
+    Returns a list of components (bytes name or int index) or None when the text is not of that form."""
+    i = 0
+    n = len(path)
+    comps = []
+    if i < n and path[i:i + 1] in SEPS:
+        i += 1
+    while True:
+        if i >= n:
+            return None
+        if path[i:i + 1] == b"[":
+            j = path.find(b"]", i)
+            if j < 0 or not path[i + 1:j].isdigit() or len(path[i + 1:j]) > 9:
+                return None
+            comps.append(int(path[i + 1:j]))
+            i = j + 1
+        else:
+            j = i
+            while j < n and path[j:j + 1] not in SEPS:
+                j += 1
+            if not valid_name(path[i:j]):
+                return None
+            comps.append(path[i:j])
+            i = j
+        if i == n:
+            return comps
+        if path[i:i + 1] not in SEPS:
+            return None
+        i += 1
+
+
+def doc_resolve(node, comps, kids, name_of, ty_of):
+    """Resolve parsed components from [node] by the documented rule.  Returns the chain of nodes (excluding the
+    start) or None."""
+    chain = []
+    cur = node
+    for c in comps:
+        ks = kids(cur)
+        if isinstance(c, int):
+            if ty_of(cur) not in AGGS or c >= len(ks):
+                return None
+            cur = ks[c]
+        else:
+            if ty_of(cur) != T_GROUP:
+                return None
+            m = [k for k in ks if name_of(k) == c]
+            if not m:
+                return None
+            cur = m[0]
+        chain.append(cur)
+    return chain
+
+
+def rel_paths(rng, n, depth=3):
+    """Spellings of paths from node n to some descendant: list of (bytes, ends_in_name)."""
+    comps = []
+    cur = n
+    for _ in range(rng.randint(1, depth)):
+        if not cur.kids:
+            break
+        i = rng.randrange(len(cur.kids))
+        k = cur.kids[i]
+        if k.name is not None and cur.ty == T_GROUP and rng.random() < 0.85:
+            comps.append((k.name, True))
+        else:
+            comps.append((b"[%d]" % i, False))
+        cur = k
+    if not comps:
+        return None
+    out = b""
+    if rng.random() < 0.25:
+        out += rng.choice(SEPS)
+    for j, (c, _) in enumerate(comps):
+        if j:
+            out += rng.choice(SEPS)
+        out += c
+    return out
+
+
+def focus_op(rng, sh, f, auto, pick):
+    """An operation of the same command/kind as a disagreeing one, on a random node with random arguments."""
+    cmd, k = f
+    kt = {"i": T_INT, "l": T_INT64, "f": T_FLOAT, "b": T_BOOL, "s": T_STRING}
+    if cmd == "set" and k:
+        p, n = pick(lambda n: n.ty in SCALARS or n.ty == T_NONE)
+        v = rand_value(rng, k)
+        if k == "f" and auto and n.ty in (T_INT, T_INT64):
+            lo, hi = (-2**31, 2**31 - 1) if n.ty == T_INT else (-2**63 + 1024, 2**63 - 1024)
+            if not float_castable(int(v[1:], 16), lo, hi):
+                v = fbits(0x4045000000000000)
+        sh.set_type_if_none(p, kt[k])
+        return "set %s %s %s" % (k, path_str(p), v)
+    if cmd == "eset" and k:
+        p, n = pick(lambda n: n.ty in (T_ARRAY, T_LIST))
+        L = len(n.kids)
+        idx = rng.choice([-1, 0, L - 1, L // 2]) if L else -1
+        v = rand_value(rng, k)
+        tgt = n.kids[idx].ty if 0 <= idx < L else None
+        if k == "f" and auto and tgt in (T_INT, T_INT64):
+            lo, hi = (-2**31, 2**31 - 1) if tgt == T_INT else (-2**63 + 1024, 2**63 - 1024)
+            if not float_castable(int(v[1:], 16), lo, hi):
+                v = fbits(0x4045000000000000)
+        if idx < 0:
+            sh.append_elem(p, kt[k])
+        elif tgt == T_NONE:
+            n.kids[idx].ty = kt[k]
+        return "eset %s %s %d %s" % (k, path_str(p), idx, v)
+    if cmd == "rm":
+        p, n = pick(lambda n: n.ty == T_GROUP and n.kids)
+        pa = rel_paths(rng, n)
+        if pa is None:
+            return None
+        sh.rm_path(p, pa)
+        return "rm %s %s" % (path_str(p), hx(pa))
+    if cmd == "add":
+        p, n = pick(lambda n: n.ty in (T_ARRAY, T_LIST))
+        ty = rng.choice(SCALARS + AGGS)
+        sh.add(p, None, ty)
+        return "add %s - %d" % (path_str(p), ty)
+    return None
+
+
+def random_history(rng, nops, opts=None, dump_every=1, hooks=False, crossing=False, focus=None, paths=False):
     """One history as script text.  Starts with 'init'."""
     sh = Shadow()
     out = ["init"]
@@ -174,6 +313,22 @@ def random_history(rng, nops, opts=None, dump_every=1, hooks=False, crossing=Fal
 
     for _ in range(nops):
         r = rng.random()
+        if focus and rng.random() < 0.35:
+            op = focus_op(rng, sh, rng.choice(focus), auto, pick)
+            if op:
+                out.append(op)
+                if op.startswith("rm "):
+                    # keep the shadow usable: structural removal by path is not mirrored, so rebuild lazily
+                    pass
+                out.append("dump")
+                continue
+        if paths and r < 0.12:
+            p, n = pick(lambda n: n.ty == T_GROUP and n.kids)
+            pa = rel_paths(rng, n)
+            if pa is not None:
+                if rng.random() < 0.5:
+                    out.append("look %s %s" % (path_str(p), hx(pa)))
+                    continue
         if crossing and r < 0.45:
             # grow one aggregate across the 16/32 boundaries, then shrink it back
             p, n = pick(lambda n: n.ty in AGGS)
@@ -205,8 +360,13 @@ def random_history(rng, nops, opts=None, dump_every=1, hooks=False, crossing=Fal
                 nm = k.name if k.name is not None else b"zz"
             else:
                 nm = rng.choice(VALID_NAMES + INVALID_NAMES)
-            out.append("rm %s %s" % (path_str(p), hx(nm)))
-            sh.rm_name(p, nm)
+            pa = rel_paths(rng, n) if (paths and n.ty == T_GROUP and rng.random() < 0.5) else None
+            if pa is not None:
+                out.append("rm %s %s" % (path_str(p), hx(pa)))
+                sh.rm_path(p, pa)
+            else:
+                out.append("rm %s %s" % (path_str(p), hx(nm)))
+                sh.rm_name(p, nm)
         elif r < 0.44:
             p, n = pick(lambda n: n.ty in AGGS) if rng.random() < 0.9 else pick()
             L = len(n.kids)
